@@ -23,10 +23,8 @@ FORMS = {
     "iso-hms": [("Y", 4), "-", ("m", 2), "-", ("D", 2), " ", ("H", 2), ":", ("T", 2), ":", ("S", 2)],
     "iso-T-hm": [("Y", 4), "-", ("m", 2), "-", ("D", 2), "T", ("H", 2), ":", ("T", 2)],
     "iso-T-hms": [("Y", 4), "-", ("m", 2), "-", ("D", 2), "T", ("H", 2), ":", ("T", 2), ":", ("S", 2)],
-    "iso-hms-f": [("Y", 4), "-", ("m", 2), "-", ("D", 2), " ", ("H", 2), ":", ("T", 2), ":", ("S", 2),
-                  ".", "F"],
-    "iso-T-hms-f": [("Y", 4), "-", ("m", 2), "-", ("D", 2), "T", ("H", 2), ":", ("T", 2), ":",
-                    ("S", 2), ".", "F"],
+    # (forms with fractional seconds are not here: one case did not finish within 90 minutes on one
+    #  core; they stay with the kernel contract `absolute-formats` and the stand-in `front_en_abs`)
     "rfc2822": ["W", ", ", ("D", 2), " ", "B", " ", ("Y", 4), " ", ("H", 2), ":", ("T", 2), ":",
                 ("S", 2)],
     "month-d-comma-y": ["B", " ", ("D", 2), ", ", ("Y", 4)],
@@ -68,7 +66,7 @@ class front_end_en_absolute:
     props = ["C01"]
 
     # forms whose exploration takes minutes on one core (thorough tier only)
-    SLOW = ("iso-hm", "iso-T-hm", "iso-hms", "iso-T-hms", "iso-hms-f", "iso-T-hms-f", "rfc2822",
+    SLOW = ("iso-hm", "iso-T-hm", "iso-hms", "iso-T-hms", "rfc2822",
             "d-month-y-hms", "ctime")
 
     @classmethod
